@@ -36,11 +36,13 @@ fn inner(e: &Value, items: &[&str]) -> String {
         "diff" => format!("{}--{}", operand(&e["l"], items), operand(&e["r"], items)),
         "symdiff" => format!("{}~~{}", operand(&e["l"], items), operand(&e["r"], items)),
         "neg" | "grp" => bracket(e, items),
+        // the empty operand of a set operator: nothing is written (`[a-z&&]`)
+        "empty" => String::new(),
         o => panic!("harness: class op {o}"),
     }
 }
 fn operand(e: &Value, items: &[&str]) -> String {
-    if e["op"] == "base" {
+    if e["op"] == "base" || e["op"] == "empty" {
         inner(e, items)
     } else {
         bracket(e, items)
